@@ -243,6 +243,9 @@ func c15Exec(c *c15Case) {
 		c.SX0 = c.SX.clone()
 	}
 	c.Text = c.text(sx)
+	if renderOnly {
+		return
+	}
 	// the twin: same grammar, the in-rule set replaced by a plain terminal set
 	twin := c.Text
 	if sx != "" {
